@@ -233,6 +233,28 @@ def main(argv):
         v, _ = gen_prog.behaviour_check(ol, kfs["KF-D55"]["witness"]["source"], gen_prog.CONFIGS[0])
         if v.startswith("fail"):
             kf_seen["KF-D55"] = ("__secret", "class-attribute", "-")
+    if "KF-D43" in kfs:
+        # the witness: a generator that always answers the same (a constant Mersenne-Twister state does; here the draw itself
+        # is pinned for the duration of one conversion) - two nested functions then get the same dictionary name
+        import random as _random
+        from unittest import mock
+        src43 = "def f():\n    a = 1\n    def g():\n        b = 2\n        def h():\n            return a + b\n        return h()\n    return g()\nprint(f())\n"
+        with mock.patch.object(_random, "choices", lambda pop, k=1, **kw: [pop[0]] * k):
+            try:
+                text43 = ol.convert_code_string(src43)
+            except Exception:
+                text43 = ""
+        names43 = re.findall(r"__ol_nonlocal_[a-z]+", text43)
+        v43, _ = gen_prog.behaviour_check(ol, src43, gen_prog.CONFIGS[0])
+        if v43 == "ok" and len(set(names43)) == 1 and len(names43) > 1:
+            try:
+                out43 = []
+                eval(compile(text43, "<o>", "eval"), {"print": lambda *a: out43.append(a)})
+                collided = out43 != [(3,)]
+            except Exception:
+                collided = True
+            if collided:
+                kf_seen["KF-D43"] = ("-", "degenerate-rng", "-")
     for kf, (X, role, feat) in sorted(kf_seen.items()):
         ck.known(kf, kfs[kf]["what"])
     failing.sort(key=lambda f: len(f[5]))
